@@ -737,6 +737,7 @@ def publish_bounded(unit_name, root, tier, seed):
     fn = '_c03_symbols' if 'symbol' in unit_name else '_c03_modules'
     jobs = [{'expr': f'{fn}({seed}, {n})'}]
     real = rp.run_real(jobs, prelude=PUB_PRELUDE, root=root)[0]
+    rp.check_driver(real)
     if not real['ok']:
         return {'expr': jobs[0]['expr'], 'real': real, 'failed_clause': 'bounded driver raised: ' + str(real.get('exc'))}, 0
     d = rp.repr_to_data(real['repr'])
